@@ -233,6 +233,36 @@ func genNotebook(r *Rng, tier string, idx int, args map[string]string) []string 
 			if rt && r.Chance(2, 3) {
 				ops = append(ops, "find "+Hx(e.Command)+" "+Hx(marker))
 			}
+		case x < 8 && r.Chance(1, 2):
+			// two saves of one command that differ ONLY in where a list is split (an element containing the
+			// separator vs two elements): a "nothing changed" shortcut that compares joined lists would skip
+			// the second one, which must replace the entry like any other re-save
+			marker := "zq" + Itoa(idx) + "r" + Itoa(i)
+			sep := Pick(r, []string{",", ",", ", ", " ", ";"})
+			a, b := Pick(r, awWords), Pick(r, awWords)
+			e1 := database.Command{Command: "resplit " + marker, Description: nbText(r, marker), Niche: Pick(r, []string{"", "dev"}), Pipeline: r.Bool()}
+			e2 := e1
+			switch r.Intn(3) {
+			case 0:
+				e1.Keywords, e2.Keywords = []string{a + sep + b}, []string{a, b}
+			case 1:
+				e1.Platform, e2.Platform = []string{"linux", "macos"}, []string{"linux" + sep + "macos"}
+			default:
+				e1.Keywords, e2.Keywords = []string{a, b}, []string{a + sep + b}
+				e1.Platform, e2.Platform = []string{"linux" + sep + "macos"}, []string{"linux", "macos"}
+			}
+			for _, e := range []database.Command{e1, e2} {
+				used = append(used, e.Command)
+				rt := false
+				if state != "corrupt" {
+					next := nbSaveShadow(shadow, e)
+					if rt = nbRoundTrips(next); rt {
+						shadow = next
+						state = "list"
+					}
+				}
+				ops = append(ops, fmt.Sprintf("save %s %s %s %s %s %s %s", B(rt), Hx(e.Command), Hx(e.Description), nbHxList(e.Keywords), Hx(e.Niche), nbHxList(e.Platform), B(e.Pipeline)))
+			}
 		case x < 9:
 			ops = append(ops, "load")
 		default:
